@@ -143,20 +143,20 @@ theorem minFold_unique (l : List Int) (m0 m : Int)
 variable {B : Type}
 
 /-- `c` occurs in `cs`, directly or inside (the `Ifs` of) an `IfPresent` wrapper at any depth -/
-inductive Nested : Cav B → List (Cav B) → Prop
-  | here {c : Cav B} {cs : List (Cav B)} : c ∈ cs → Nested c cs
+inductive NestedIn : Cav B → List (Cav B) → Prop
+  | here {c : Cav B} {cs : List (Cav B)} : c ∈ cs → NestedIn c cs
   | inside {c : Cav B} {cs : List (Cav B)} {n : Bool} {ifs : CavList B} {e : Action} :
-      Cav.ifPresent n ifs e ∈ cs → Nested c ifs.toList → Nested c cs
+      Cav.ifPresent n ifs e ∈ cs → NestedIn c ifs.toList → NestedIn c cs
 
-theorem nested_nil (x : Cav B) : ¬ Nested x [] := by
+theorem nestedIn_nil (x : Cav B) : ¬ NestedIn x [] := by
   intro h
   cases h with
   | here h => cases h
   | inside h _ => cases h
 
-theorem nested_cons (x c : Cav B) (cs : List (Cav B)) :
-    Nested x (c :: cs) ↔
-      x = c ∨ (∃ n ifs e, c = Cav.ifPresent n ifs e ∧ Nested x ifs.toList) ∨ Nested x cs := by
+theorem nestedIn_cons (x c : Cav B) (cs : List (Cav B)) :
+    NestedIn x (c :: cs) ↔
+      x = c ∨ (∃ n ifs e, c = Cav.ifPresent n ifs e ∧ NestedIn x ifs.toList) ∨ NestedIn x cs := by
   constructor
   · intro h
     cases h with
@@ -175,14 +175,14 @@ theorem nested_cons (x c : Cav B) (cs : List (Cav B)) :
       | here h => exact .here (List.mem_cons_of_mem _ h)
       | inside h hn => exact .inside (List.mem_cons_of_mem _ h) hn
 
-theorem Nested.perm {x : Cav B} {cs cs' : List (Cav B)} (hp : cs.Perm cs') (h : Nested x cs) : Nested x cs' := by
+theorem NestedIn.perm {x : Cav B} {cs cs' : List (Cav B)} (hp : cs.Perm cs') (h : NestedIn x cs) : NestedIn x cs' := by
   cases h with
   | here h => exact .here (hp.mem_iff.mp h)
   | inside h hn => exact .inside (hp.mem_iff.mp h) hn
 
 mutual
 theorem mem_unwrapGet (p : Cav B → Bool) (x : Cav B) : (c : Cav B) →
-    (x ∈ unwrapGet p c ↔ p x = true ∧ ∃ n ifs e, c = Cav.ifPresent n ifs e ∧ Nested x ifs.toList)
+    (x ∈ unwrapGet p c ↔ p x = true ∧ ∃ n ifs e, c = Cav.ifPresent n ifs e ∧ NestedIn x ifs.toList)
   | .ifPresent n ifs e => by
     have ih := mem_getCaveatsL p x ifs
     simp only [unwrapGet, ih]
@@ -199,12 +199,12 @@ theorem mem_unwrapGet (p : Cav B → Bool) (x : Cav B) : (c : Cav B) →
   | .unregistered .. => by
     simp [unwrapGet]
 theorem mem_getCaveatsL (p : Cav B → Bool) (x : Cav B) : (l : CavList B) →
-    (x ∈ getCaveatsL p l ↔ p x = true ∧ Nested x l.toList)
-  | .nil => by simp [getCaveatsL, CavList.toList, nested_nil]
+    (x ∈ getCaveatsL p l ↔ p x = true ∧ NestedIn x l.toList)
+  | .nil => by simp [getCaveatsL, CavList.toList, nestedIn_nil]
   | .cons c cs => by
     have ih1 := mem_unwrapGet p x c
     have ih2 := mem_getCaveatsL p x cs
-    simp only [getCaveatsL, CavList.toList, List.mem_append, ih1, ih2, nested_cons]
+    simp only [getCaveatsL, CavList.toList, List.mem_append, ih1, ih2, nestedIn_cons]
     by_cases hpc : p c = true
     · simp only [hpc, ↓reduceIte, List.mem_singleton]
       constructor
@@ -229,12 +229,12 @@ end
 
 /-- `GetCaveats[T]` returns exactly the caveats of type `T` occurring at any nesting depth -/
 theorem mem_getCaveats (p : Cav B → Bool) (x : Cav B) (cs : List (Cav B)) :
-    x ∈ getCaveats p cs ↔ p x = true ∧ Nested x cs := by
+    x ∈ getCaveats p cs ↔ p x = true ∧ NestedIn x cs := by
   induction cs with
-  | nil => simp [getCaveats, nested_nil]
+  | nil => simp [getCaveats, nestedIn_nil]
   | cons c cs ih =>
     have ih1 := mem_unwrapGet p x c
-    simp only [getCaveats, List.mem_append, ih1, ih, nested_cons]
+    simp only [getCaveats, List.mem_append, ih1, ih, nestedIn_cons]
     by_cases hpc : p c = true
     · simp only [hpc, ↓reduceIte, List.mem_singleton]
       constructor
@@ -258,7 +258,7 @@ theorem mem_getCaveats (p : Cav B → Bool) (x : Cav B) (cs : List (Cav B)) :
 
 /-- the durations `GetMaxValidity` folds over: one per `MaxValidity` caveat at any depth -/
 theorem mem_maxValidityDurations (cs : List (Cav B)) (d : Int) :
-    d ∈ maxValidityDurations cs ↔ ∃ s, Nested (Cav.maxValidity s) cs ∧ d = GoTime.durationOfSecs s := by
+    d ∈ maxValidityDurations cs ↔ ∃ s, NestedIn (Cav.maxValidity s) cs ∧ d = GoTime.durationOfSecs s := by
   unfold maxValidityDurations
   simp only [List.mem_filterMap, mem_getCaveats]
   constructor
